@@ -700,6 +700,7 @@ def unwrap_elem(ex, st, seq, v, node):
                 return t
             return v.t
         if isinstance(v, VOpaque) and ex.lenient:
+            used('an opaque value is stored into a TT list -> some core, nothing known about it (lenient tier)')
             return ex.fresh('core', T.Core)          # lenient tier: some core, nothing known about it
         raise Unsupported('storing a non-3-D value into a TT list')
     if seq.tag == 'int':
@@ -1517,6 +1518,7 @@ def m_einsum(ex, st, args, kwargs, node):
             t = T.wsum(G.t, wt) if (G.tag == 'core' and G.t is not None and wt is not None) else None
             return VArr((G.shape[0], G.shape[2]), t, 'mat' if t is not None else None)
     if ex.lenient:
+        used(f'np.einsum({key!r}, ...) pattern not modelled -> opaque array (lenient tier)')
         return VOpaque('einsum')
     raise Unsupported(f'np.einsum pattern {sub!r}')
 
